@@ -6,24 +6,32 @@
 // decide the capacities are lifted verbatim, the rest of each function is pinned by its skeleton hash.
 //
 // ASSUMPTIONS of this slice
-//  A-map    env/network_new_shim.vs `StdMap`: a std HashMap that a fragment only iterates; `values()` yields
-//           the value of every entry exactly once in some order; `len()` = #entries.
+//  A-map    env/network_new_shim.vs `StdMap`: a std HashMap that a fragment only iterates is declared as
+//           StdMap in the fragment's parameter list; `values()` yields the value of every entry exactly
+//           once in some order; `len()` = number of entries.
 //  A-iter   env/seqiter.vs `SeqIter::map/sum/collect`; shim additions `SeqIter<u32>::max` (None iff empty,
-//           else the maximum), `VSum<usize>`, `VSum<u32>` (`sum_req`: the total fits), `collect()` into a
-//           std HashMap (keys = first components, value = second component of a pair with that key).
+//           else the maximum), `VSum<u32>` (`sum_req`: the total fits u32), `collect()` into a std HashMap
+//           (keys = first components, value of a key = second component of a pair with that key).
 //  A-std    `<u32 as From<u32>>::from` is the identity; truncating `as` casts are Verus' built-in semantics.
 //  A-derive `derive_more::From` on `DepotIdx(pub Idx)` wraps its argument.
 //  A-stub   VehicleTypes::iter yields `ids_sorted` in order; VehicleTypes::get = lookup in `vehicle_types`
-//           (contract text of slice `limits`); Locations::get_id is Ok for Nowhere and for known stations.
+//           (contract text of slice `limits`).
 //  A-lib    (pinned plumbing, not verified) Network::new: `number_of_service_nodes` is `.sum::<usize>()`
-//           of frag_service_trip_counts; `max_formation_count` / `overflow_capacity` are the results of
-//           the two `let` fragments evaluated on the constructor's arguments; `overflow_capacity` is
-//           handed to `Depot::new` as total capacity with `None` for every type.  create_network: the
-//           result of frag_number_of_service_trips is the 5th argument of create_depots.  create_depots,
-//           `None` branch: `loc.iter().enumerate().map(closure).collect()` applies the closure once to
-//           every location of `loc` with the captured `vehicle_upper_limit` / `allowed_vehicle_types`.
+//           (the total, no usize overflow) of the items of frag_service_trip_counts; `max_formation_count` /
+//           `overflow_capacity` are the two `let` fragments evaluated on the constructor's arguments resp.
+//           on those two values; `overflow_capacity` is handed to `Depot::new` as total capacity together
+//           with `vehicle_types.iter().map(frag_overflow_allowed_type).collect()` as allowed types.
+//           create_network: the result of frag_number_of_service_trips is the 5th argument
+//           (`vehicle_upper_limit`) of create_depots.  create_depots, `None` branch:
+//           `loc.iter().enumerate().map(closure).collect()` applies frag_default_depot once to every
+//           location of `loc` with the captured `vehicle_upper_limit` / `allowed_vehicle_types`.
 //  A-wf     VehicleTypes: `ids_sorted` lists exactly the keys of `vehicle_types` (established by
 //           VehicleTypes::new, not under contract here).
+//  ASSUMED preconditions (NOT established by the callers, see report): frag_overflow_capacity — the trip
+//           count fits u32 and count * max_formation_count does not overflow u32 (demonstrated to be
+//           violable: maximalFormationCount = 2^31 and two trips); frag_number_of_service_trips — the
+//           number of service trips fits u32.
+// EXPECTED FAILURE on the unchanged tree: lemma_overflow_depot_can_host_every_vehicle (D5, demonstrated).
 #![feature(allocator_api)]
 use vstd::prelude::*;
 use std::ops::Add;
@@ -66,7 +74,7 @@ pub type IdType = String;
 //@sig
     ensures r@ == self.ids_sorted@,
 //@end
-//@item model/src/locations.rs Locations::get_id : trusted
+//@item model/src/locations.rs Locations::get_id
 //@retname r
 //@sig
     ensures (location is Nowhere || self.stations@.contains_key(location->Station_0)) ==> r is Ok,
@@ -101,7 +109,7 @@ impl VehicleTypes {
 }
 
 // ================================================================ Network::new : overflow depot
-//@skeleton model/src/network.rs Network::new : recv sum 0; let max_formation_count; let overflow_capacity = b7eaf5ed187cffd8
+//@skeleton model/src/network.rs Network::new : recv sum 0; let max_formation_count; let overflow_capacity; closure map#2 = 2bed0bf49f5a8ac7
 
 //@frag model/src/network.rs Network::new : recv sum 0 as frag_service_trip_counts
 //@params service_trips: &StdMap<VehicleTypeIdx, Vec<ServiceTrip>>
@@ -154,6 +162,13 @@ impl VehicleTypes {
     ensures r == number_of_service_nodes * max_formation_count,
 //@end
 
+//@frag model/src/network.rs Network::new : closure map#2 as frag_overflow_allowed_type
+//@params vt: VehicleTypeIdx
+//@ret (r: (VehicleTypeIdx, Option<VehicleCount>))
+//@sig
+    ensures r.0 == vt, r.1 is None,   // the overflow depot has no per-type limit: capacity_for(vt) == total capacity
+//@end
+
 /// vehicles needed by all service trips: need(k, i) for the i-th trip of type k
 pub open spec fn need_of<T>(m: Map<VehicleTypeIdx, Vec<T>>, need: spec_fn(VehicleTypeIdx, int) -> int) -> spec_fn(VehicleTypeIdx) -> int {
     |k: VehicleTypeIdx| isum(Seq::new(m[k]@.len(), |i: int| need(k, i)))
@@ -182,7 +197,7 @@ pub proof fn lemma_overflow_capacity_limited_types(trips: Map<VehicleTypeIdx, Ve
     requires
         overflow_fragments(trips, vts, n, m, cap),
         need_within_limits(trips, vts, need),
-        forall|k: VehicleTypeIdx| trips.dom().contains(k) && trips[k]@.len() > 0 ==> (#[trigger] vts.vehicle_types@[k]).maximal_formation_count is Some,
+        forall|k: VehicleTypeIdx| trips.dom().contains(k) && trips[k]@.len() > 0 && vts.vehicle_types@.contains_key(k) ==> (#[trigger] vts.vehicle_types@[k]).maximal_formation_count is Some,
     ensures cap >= need_total(trips, need),
 {
     let g = need_of(trips, need);
@@ -190,9 +205,9 @@ pub proof fn lemma_overflow_capacity_limited_types(trips: Map<VehicleTypeIdx, Ve
     assert forall|k: VehicleTypeIdx| trips.dom().contains(k) implies #[trigger] g(k) <= (m as int) * f(k) by {
         let s = Seq::new(trips[k]@.len(), |i: int| need(k, i));
         if trips[k]@.len() > 0 {
-            assert(vts.vehicle_types@[k].maximal_formation_count is Some);
             assert(need(k, 0) >= 0);
             assert(vts.vehicle_types@.contains_key(k));
+            assert(vts.vehicle_types@[k].maximal_formation_count is Some);
             assert(vts.fc_or_1(k) <= m);
             assert forall|i: int| 0 <= i < s.len() implies 0 <= #[trigger] s[i] <= m as int by {
                 assert(need(k, i) >= 0);
@@ -214,12 +229,43 @@ pub proof fn lemma_overflow_depot_can_host_every_vehicle(trips: Map<VehicleTypeI
         need_within_limits(trips, vts, need),
     ensures cap >= need_total(trips, need), // @obl C17.overflow_depot.can_host_every_vehicle
 {
-    if forall|k: VehicleTypeIdx| trips.dom().contains(k) && trips[k]@.len() > 0 ==> (#[trigger] vts.vehicle_types@[k]).maximal_formation_count is Some {
+    if forall|k: VehicleTypeIdx| trips.dom().contains(k) && trips[k]@.len() > 0 && vts.vehicle_types@.contains_key(k) ==> (#[trigger] vts.vehicle_types@[k]).maximal_formation_count is Some {
         lemma_overflow_capacity_limited_types(trips, vts, need, n, m, cap);
     } else {
         // a type WITHOUT formation limit has trips: it was counted with 1 vehicle per trip (`unwrap_or(1)`),
         // but need(k, i) is not bounded at all — nothing to conclude (D5)
     }
+}
+
+/// the failure above is not a proof gap: one type without formation limit, one trip that needs 10
+/// vehicles — all fragment contracts and the hypothesis of the property hold, the capacity is 1 (D5)
+pub proof fn lemma_d5_counterexample(trips: Map<VehicleTypeIdx, Vec<ServiceTrip>>, vts: VehicleTypes, k: VehicleTypeIdx, v: Vec<ServiceTrip>)
+    requires
+        trips == Map::<VehicleTypeIdx, Vec<ServiceTrip>>::empty().insert(k, v), v@.len() == 1,
+        vts.vehicle_types@.dom() == set![k], vts.vehicle_types@[k].maximal_formation_count is None,
+    ensures ({
+        let need = |k: VehicleTypeIdx, i: int| 10int;
+        &&& overflow_fragments(trips, vts, 1, 1, 1)
+        &&& need_within_limits(trips, vts, need)
+        &&& need_total(trips, need) == 10
+    }),
+{
+    let need = |k: VehicleTypeIdx, i: int| 10int;
+    assert(trips.dom() =~= set![k]);
+    assert(trips.dom().remove(k) =~= Set::<VehicleTypeIdx>::empty());
+    lemma_set_sum_remove(trips.dom(), len_of(trips), k);
+    lemma_set_sum_remove(trips.dom(), need_of(trips, need), k);
+    assert(Seq::new(trips[k]@.len(), |i: int| need(k, i)) =~= seq![10int]);
+    lemma_isum_one(10);
+    assert forall|k2: VehicleTypeIdx| vts.vehicle_types@.contains_key(k2) implies #[trigger] vts.fc_or_1(k2) <= 1 by {
+        assert(vts.vehicle_types@.dom().contains(k2));
+    }
+}
+/// the overflow depot's capacity for every listed type without per-type limit is its total capacity
+pub proof fn lemma_no_type_limit_means_total(d: Depot, vt: VehicleTypeIdx)
+    requires d.allowed_types@.contains_key(vt), d.allowed_types@[vt] is None,
+    ensures sp_capacity_for(d, vt) == d.total_capacity,
+{
 }
 
 // ================================================================ create_network / create_depots : default depots
@@ -255,7 +301,7 @@ pub proof fn lemma_overflow_depot_can_host_every_vehicle(trips: Map<VehicleTypeI
     ensures
         // every vehicle type of the instance is allowed, none with a per-type limit
         forall|id: IdType| vehicle_type_lookup@.contains_key(id) ==> r@.contains_key(#[trigger] vehicle_type_lookup@[id]),
-        forall|vt: VehicleTypeIdx| #[trigger] r@.contains_key(vt) ==> r@[vt] is None,
+        forall|vt: VehicleTypeIdx| #[trigger] r@.contains_key(vt) ==> r@[vt] is None, // @obl C17.default_depots.capacity_covers_all_trips
 //@first
         broadcast use {axiom_hm_collect, lemma_enum_hits, lemma_touch_same_index};
 //@end
@@ -267,8 +313,8 @@ pub proof fn lemma_overflow_depot_can_host_every_vehicle(trips: Map<VehicleTypeI
     requires location is Station ==> loc.stations@.contains_key(location->Station_0),
     ensures
         r.location == location,
-        r.total_capacity == vehicle_upper_limit,
-        r.allowed_types@ == allowed_vehicle_types@,
+        r.total_capacity == vehicle_upper_limit, // @obl C17.default_depots.capacity_covers_all_trips
+        r.allowed_types@ == allowed_vehicle_types@, // @obl C17.default_depots.capacity_covers_all_trips
 //@first
         broadcast use {axiom_from_id_u32, axiom_from_id_u32_obeys};
 //@end
